@@ -226,10 +226,52 @@ pub fn run_task(w: Arc<World>, ix: usize) -> i64 {
     let mut guards: Vec<Option<Guard>> = (0..4).map(|_| None).collect();
     let mut acc: i64 = 0;
     let code: &Vec<Op> = &wr.prog.tasks[ix];
-    for (i, op) in code.iter().enumerate() {
+    let mut i = 0;
+    while i < code.len() {
+        let op = &code[i];
+        if op.k == "scope_begin" {
+            // everything up to the matching scope_end runs inside the closure given to thread::scope
+            let mut depth = 1;
+            let mut j = i + 1;
+            while j < code.len() {
+                if code[j].k == "scope_begin" {
+                    depth += 1;
+                } else if code[j].k == "scope_end" {
+                    depth -= 1;
+                    if depth == 0 {
+                        break;
+                    }
+                }
+                j += 1;
+            }
+            log_op(ix, i + 1, "scope_begin", 0);
+            let guards_ref = &mut guards;
+            let acc_ref = &mut acc;
+            thread::scope(|sc| {
+                for (n, op2) in code.iter().enumerate().take(j).skip(i + 1) {
+                    let r = if op2.k == "sspawn" {
+                        let child = op2.v as usize;
+                        let w2 = Arc::clone(&w);
+                        let h = sc.spawn(move || run_task(w2, child));
+                        let tid: usize = h.thread().id().into();
+                        *wr.threads[child].get() = Some(h.thread().clone());
+                        tid as i64
+                    } else {
+                        exec_op(&w, wr, ix, op2, guards_ref, *acc_ref)
+                    };
+                    log_op(ix, n + 1, &op2.k, r);
+                    *acc_ref = r;
+                }
+            });
+            log_op(ix, j + 1, "scope_end", 0);
+            acc = 0;
+            i = j + 1;
+            continue;
+        }
         let r = exec_op(&w, wr, ix, op, &mut guards, acc);
         log_op(ix, i + 1, &op.k, r);
         acc = r;
+        i += 1;
     }
     log_op(ix, code.len() + 1, "ret", acc);
     drop(guards);
